@@ -19,7 +19,8 @@ Structural clauses decided (DESIGN.md section 5/C04):
 """
 import ast
 
-from ..engine import Analysis, is_call_to, is_suspension, short, where_fn, tested, key_truth
+from ..engine import Analysis, is_call_to, is_suspension, short, where_fn, tested, \
+    key_truth, event_callees, invoked
 from ..model import AnalysisError
 from ..paths import SIGNALS, GENEXIT
 from ..types import Callee
@@ -81,12 +82,15 @@ def run(check, an: Analysis):
         for path in an.paths(close):
             if not path.normal:
                 continue
-            order = [e for e in path.events if e.depth == 0 and e.kind == 'call' and any(
+            order = [e for e in path.events if e.depth == 0 and e.kind in ('call', 'enter')
+                     and any(
                 is_call_to(e, name) for name in
                 ('_disable_interrupts', '_close_children', '_close_volatile'))]
             names = [next(n for n in ('_disable_interrupts', '_close_children',
                                       '_close_volatile') if is_call_to(e, n))
                      for e in order]
+            # an override chaining to super() shows up as consecutive entries
+            names = [n for i, n in enumerate(names) if i == 0 or names[i - 1] != n]
             check.instance('P', '_close_scope[%s]:order' % label,
                            names == ['_disable_interrupts', '_close_children',
                                      '_close_volatile'], where_fn(close.fn),
@@ -119,7 +123,7 @@ def run(check, an: Analysis):
         for path in paths:
             for event in path.events:
                 if event.kind == 'susp' and event.depth == 0:
-                    waits.update(c.recv for c in event['callees'])
+                    waits.update(c.recv for c in event_callees(event))
         check.instance('E', '_await_children[%s]:awaits-done' % label,
                        waits == {_scope.DONE}, where_fn(awaitc.fn),
                        'the only thing awaited is the completion of a child: %s'
